@@ -9,6 +9,9 @@ import (
 	"strings"
 
 	"cosmossdk.io/math"
+	distrtypes "github.com/cosmos/cosmos-sdk/x/distribution/types"
+	slashingtypes "github.com/cosmos/cosmos-sdk/x/slashing/types"
+	stakingtypes "github.com/cosmos/cosmos-sdk/x/staking/types"
 	sdk "github.com/cosmos/cosmos-sdk/types"
 	ammtypes "github.com/elys-network/elys/x/amm/types"
 	aptypes "github.com/elys-network/elys/x/assetprofile/types"
@@ -76,7 +79,27 @@ func autoGovZero() []sdk.Msg {
 		&tktypes.MsgCreateTimeBasedInflation{}, &tktypes.MsgUpdateTimeBasedInflation{}, &tktypes.MsgCreateAirdrop{}, &tktypes.MsgUpdateAirdrop{},
 		&tstypes.MsgUpdateParams{}, &paramtypes.MsgUpdateMinCommission{}, &paramtypes.MsgUpdateMaxVotingPower{}, &paramtypes.MsgUpdateMinSelfDelegation{},
 		&paramtypes.MsgUpdateTotalBlocksPerYear{}, &paramtypes.MsgUpdateRewardsDataLifetime{},
+		// parameters of the SDK modules the chain's own begin-/end-blockers read (governance can move them too)
+		&distrtypes.MsgUpdateParams{}, &stakingtypes.MsgUpdateParams{}, &slashingtypes.MsgUpdateParams{},
 	}
+}
+
+// sdkGovTemplates: well-formed payloads (current parameters) of the SDK-module governance messages of the sweep.
+func sdkGovTemplates(w *World, ctx sdk.Context) map[string]sdk.Msg {
+	out := map[string]sdk.Msg{}
+	if p, err := w.App.DistrKeeper.Params.Get(ctx); err == nil {
+		m := &distrtypes.MsgUpdateParams{Params: p}
+		out[sdk.MsgTypeURL(m)] = m
+	}
+	if p, err := w.App.StakingKeeper.GetParams(ctx); err == nil {
+		m := &stakingtypes.MsgUpdateParams{Params: p}
+		out[sdk.MsgTypeURL(m)] = m
+	}
+	if p, err := w.App.SlashingKeeper.GetParams(ctx); err == nil {
+		m := &slashingtypes.MsgUpdateParams{Params: p}
+		out[sdk.MsgTypeURL(m)] = m
+	}
+	return out
 }
 
 // AutoCfgs is the static enumeration (message type, field path, boundary value).
@@ -105,7 +128,7 @@ func autoCfgsWith(candsFor func(reflect.Type) []string) []autoCfg {
 	for _, z := range autoGovZero() {
 		url := sdk.MsgTypeURL(z)
 		t := reflect.TypeOf(z).Elem()
-		short := strings.TrimPrefix(url, "/elys.")
+		short := strings.TrimPrefix(strings.TrimPrefix(url, "/elys."), "/")
 		for i := 0; i < t.NumField(); i++ {
 			f := t.Field(i)
 			if !f.IsExported() {
@@ -185,6 +208,9 @@ func setBoundary(fv reflect.Value, cand string) {
 func (a autoCfg) gov(w *World) func(ctx sdk.Context) error {
 	return func(ctx sdk.Context) error {
 		tpl := govPayloadsAt(w, ctx)[a.URL]
+		if tpl == nil {
+			tpl = sdkGovTemplates(w, ctx)[a.URL]
+		}
 		if tpl == nil {
 			return fmt.Errorf("no payload template for %s", a.URL)
 		}
